@@ -1,0 +1,47 @@
+//go:build verif
+
+package eviction
+
+// VerifKeys returns the keys currently held by the heap, in heap-slice order.
+func (cache *CacheLRU) VerifKeys() []string {
+	res := make([]string, 0, len(cache.entries))
+	for _, e := range cache.entries {
+		if e != nil {
+			res = append(res, e.key)
+		}
+	}
+	return res
+}
+
+// VerifKeys returns the keys currently held by the heap, in heap-slice order.
+func (cache *CacheLFU) VerifKeys() []string {
+	res := make([]string, 0, len(cache.entries))
+	for _, e := range cache.entries {
+		if e != nil {
+			res = append(res, e.key)
+		}
+	}
+	return res
+}
+
+// VerifEntries returns key -> last access (unix ms).
+func (cache *CacheLRU) VerifEntries() map[string]int64 {
+	res := make(map[string]int64, len(cache.entries))
+	for _, e := range cache.entries {
+		if e != nil {
+			res[e.key] = e.unixTime
+		}
+	}
+	return res
+}
+
+// VerifEntries returns key -> access count.
+func (cache *CacheLFU) VerifEntries() map[string]int {
+	res := make(map[string]int, len(cache.entries))
+	for _, e := range cache.entries {
+		if e != nil {
+			res[e.key] = e.count
+		}
+	}
+	return res
+}
